@@ -1,6 +1,8 @@
 package rules
 
 import (
+	"golang.org/x/tools/go/ssa"
+
 	"fmt"
 	"go/token"
 	"sort"
@@ -76,6 +78,18 @@ func checkCodonDict(c *core.Ctx, rule string, dict map[string]string) {
 
 func C17(c *core.Ctx) {
 	c.Explanation("C17: the codon dictionary, the text and encoded complement tables and the encoding/decoding tables are extracted from the constructors' source by constant evaluation and compared, exhaustively over 3375 IUPAC codons / 256 byte values, with an independently written standard genetic code and IUPAC base-set table; Translate, Complement, ReverseComplement and the four record methods are evaluated by the abstract interpreter on every single codon / every accepted symbol and on distinct-symbol strings of length 0..8 (they never branch on symbol identity other than through the tables).")
+	// purity: the alphabet and encoding functions write no package-level state (their results are functions of
+	// their arguments also when several workers call them at once)
+	{
+		var roots []*ssa.Function
+		for _, f := range c.RepoFuncs() {
+			if f.Pkg != nil && f.Parent() == nil && (c.RelOf(f.Pkg.Pkg) == "pkg/alphabet" || c.RelOf(f.Pkg.Pkg) == "pkg/encoding") && f.Name() != "init" {
+				roots = append(roots, f)
+			}
+		}
+		checkNoSharedWrites(c, "R7/alphabet-and-encoding-functions-are-pure", roots, "translation, complement and the table constructors must not keep state between calls")
+		c.Floor("R7/alphabet-and-encoding-functions", len(roots), 6)
+	}
 	ev := newEval(c)
 	// 1. codon dictionary
 	dict, ok := codonDict(c, ev, "R1")
